@@ -209,6 +209,14 @@ class SymEval:
                 else:
                     args.append(self.rat(v))
             out.entries[idx] = f(*args)
+        # labels of a pandas selection survive element-wise arithmetic between equally
+        # labelled operands (and scalars)
+        labels = {tuple(getattr(a, 'colnames', ())) for a in arrs if a.shape == shape}
+        if len(labels) == 1 and next(iter(labels)):
+            out.colnames = list(next(iter(labels)))
+        elif len([l for l in labels if l]) > 1:
+            # pandas aligns on labels: differently labelled operands give the union, all NaN
+            out.label_conflict = sorted(l for l in labels if l)
         return out
 
     def matmul(self, a, b):
@@ -519,6 +527,29 @@ class SymEval:
             # one generic iteration with the loop variable as a fresh symbol
             if not isinstance(st.target, ast.Name):
                 raise Unsupported('generic loop target')
+            # soundness of "one generic iteration": no scalar local may be carried from one
+            # iteration to the next (read before it is written in the body, and written in
+            # the body) - the generic iteration would see its pre-loop value
+            stored_so_far, carried = set(), set()
+            all_stored = {n.id for s2 in st.body for n in ast.walk(s2)
+                          if isinstance(n, ast.Name) and isinstance(n.ctx, ast.Store)}
+            for s2 in st.body:
+                loads = {n.id for n in ast.walk(s2)
+                         if isinstance(n, ast.Name) and isinstance(n.ctx, ast.Load)}
+                if isinstance(s2, ast.AugAssign) and isinstance(s2.target, ast.Name):
+                    loads.add(s2.target.id)
+                carried |= {x for x in loads if x in all_stored and x not in stored_so_far
+                            and x in env and x != st.target.id}
+                # a store counts only when unconditional at the top level of the body
+                if isinstance(s2, (ast.Assign, ast.AugAssign, ast.AnnAssign)):
+                    for t in (s2.targets if isinstance(s2, ast.Assign) else [s2.target]):
+                        for n in ast.walk(t):
+                            if isinstance(n, ast.Name) and isinstance(n.ctx, ast.Store):
+                                stored_so_far.add(n.id)
+            if carried:
+                raise Unsupported('loop-carried local(s) %s: a generic iteration cannot model a '
+                                  'value handed from one iteration to the next'
+                                  % sorted(carried))
             env[st.target.id] = self.A.sym(st.target.id)
             self.exec_block(st.body, env)
             return
@@ -1046,6 +1077,7 @@ class SymEval:
                     if c not in base.cols:
                         raise Unsupported('column %s missing' % c)
                     out.entries[(i,)] = self.rat(base.cols[c])
+                out.colnames = list(idx)
                 return out
             raise Unsupported('record index %r' % (idx,))
         if isinstance(base, (list, tuple)):
